@@ -180,7 +180,14 @@ pub fn generate(g: &mut Gen, thorough: bool) {
         let e1 = if small { e0 } else { *g.rng.pick(&ellps) };
         let abridged = g.rng.chance(1, 2);
         let m = if small { 30.0 } else { 300.0 };
-        let d = [round3(g.rng.uniform(-m, m)), round3(g.rng.uniform(-m, m)), round3(g.rng.uniform(-m, m))];
+        let mut d = [round3(g.rng.uniform(-m, m)), round3(g.rng.uniform(-m, m)), round3(g.rng.uniform(-m, m))];
+        // a change of ellipsoid alone (no translation at all), and translations along one or two axes only
+        match k % 16 {
+            0 | 8 => d = [0.0, 0.0, 0.0],
+            2 => d[0] = 0.0,
+            4 => { d[1] = 0.0; d[2] = 0.0 }
+            _ => {}
+        }
         let hmax = if small && !abridged { 9000.0 } else if small { 0.0 } else { 5000.0 };
         let pts: Vec<[f64; 4]> = (0..8)
             .map(|_| {
@@ -215,6 +222,13 @@ pub fn generate(g: &mut Gen, thorough: bool) {
             &format!("oracle-molodensky-{}-{}", if abridged { "abridged" } else { "full" }, if small { "small" } else { "large" }),
             true,
         );
+        // the same definition on the model, both directions
+        if k % 4 == 0 {
+            let def = format!("molodensky ellps_0={e0} ellps_1={e1} dx={} dy={} dz={}{}", d[0], d[1], d[2], if abridged { " abridged" } else { "" });
+            for dir in ["F", "I"] {
+                g.push(op_line("default", &[], &[], &def, "apply", dir, &data_of(&pts)), "model-molodensky", true);
+            }
+        }
     }
     // constructor errors: missing convention, missing t_epoch, bad list lengths
     for def in [
